@@ -17,15 +17,18 @@ func randToken(r *Rng, valid bool) []byte {
 		b[i] = tokChars[r.Intn(len(tokChars))]
 	}
 	if !valid {
-		switch r.Intn(4) {
+		switch r.Intn(5) {
 		case 0:
 			b[0] = []byte("1_-*:")[r.Intn(5)]
 		case 1:
 			b = append(b, []byte(" ;,=\"\x80!")[r.Intn(7)])
 		case 2:
 			b = []byte{}
-		default:
+		case 3:
 			b[r.Intn(n)] = byte(0x80 + r.Intn(100))
+		default:
+			// a non-ASCII rune whose low byte is an allowed character
+			b = append(b, []byte(string(rune(0x100*(1+r.Intn(0x30))+int(tokChars[r.Intn(len(tokChars))]))))...)
 		}
 	}
 	return b
@@ -39,13 +42,15 @@ func randKeyName(r *Rng, valid bool) []byte {
 		b[i] = keyChars[r.Intn(len(keyChars))]
 	}
 	if !valid {
-		switch r.Intn(3) {
+		switch r.Intn(4) {
 		case 0:
 			b[0] = []byte("A1_-")[r.Intn(4)]
 		case 1:
 			b = append(b, []byte("A.:* ")[r.Intn(5)])
-		default:
+		case 2:
 			b = []byte{}
+		default:
+			b = append(b, []byte(string(rune(0x100*(1+r.Intn(0x30))+int(keyChars[r.Intn(len(keyChars))]))))...)
 		}
 	}
 	return b
